@@ -88,6 +88,10 @@ M = [
     ('text', '_TextTableRow.repr', 'pjplan/utils.py', "                text = colored_text('  ', width[i] + 2, self.color, self.bg_color)", "                text = colored_text('  ', width[i], self.color, self.bg_color)", 'width'),
     ('text', 'TextTable.text_repr', 'pjplan/utils.py', "                widths_map[i] = max(len(r.get_cell(i).text), widths_map.setdefault(i, 0))", "                widths_map[i] = min(len(r.get_cell(i).text), widths_map.setdefault(i, 0))", 'fit'),
     ('text', 'TextTable.text_repr', 'pjplan/utils.py', "            if len(res) > 0:\n                res += '\\n'\n            res += r.repr(widths, border, border_color)", "            res += r.repr(widths, border, border_color)", 'line'),
+    ('rawio', 'raws_to_wbs', 'pjplan/io/raw.py', "        if raw.parent_id is not None:", "        if raw.parent_id:", 'parent-row'),
+    ('rawio', 'raws_to_wbs', 'pjplan/io/raw.py', "                parent_task.children.append(task)\n                task.parent = parent_task\n            else:\n                roots.append(task)\n        else:\n            roots.append(task)",
+     "                parent_task.children.append(task)\n                task.parent = parent_task\n            else:\n                roots.append(task)\n        else:\n            roots.insert(0, task)", 'row-order'),
+    ('rawio', 'raws_to_wbs', 'pjplan/io/raw.py', "            id=raw.id,\n            name=raw.name,", "            id=raw.id + 1,\n            name=raw.name,", 'rows-id'),
     ('csvio', '__parse_bool', 'pjplan/io/csv_io.py', "    return _val == 'True'", "    return _val == 'true'", 'bool'),
     ('csvio', 'write_csv.cells', 'pjplan/io/csv_io.py', "                task.name if task.name else '',\n                task.resource if task.resource else '',", "                task.name if task.name else '',\n                task.name if task.resource else '',", 'resource'),
     ('csvio', 'tasks_to_raws', 'pjplan/io/raw.py', "            parent_id=t.parent.id if t.parent else None,", "            parent_id=t.parent.id if t.parent and t.parent.id != 0 else None,", 'parent_id'),
